@@ -1,4 +1,5 @@
 import HC.Proofs.Bitfield
+import HC.Props.C02
 /-!
 # C08 — has() and contiguous_length are exact
 
@@ -10,7 +11,13 @@ import HC.Proofs.Bitfield
 * `contig_reachable` : hence for every sequence of updates (appends, clears, out-of-order proof
   applications, replays) starting from the empty bitfield the hint is exact.
 
-Not covered here (validated by the correspondence run only): that the Rust page/word/mask arithmetic
+* `rep_exact`, `writer_exact`, `recovered_exact` : on the model of the whole crate — for a writer core after
+  **any** history of appends, clears, reads and close-and-reopen steps, and after recovery from a crash at
+  **any** storage operation of a further call (bitfield pages partly flushed, header hint older than the
+  pages), `has(i)` is the abstract held set for every `i` and `contiguous_length` is exactly the smallest
+  index that is not held (the length if none is missing).
+
+Not covered here (validated by the correspondence run only): replicas (blocks arriving out of order), that the Rust page/word/mask arithmetic
 realises `setRange`, and the page (de)serialisation — see `C08.Full` and the evidence file.
 -/
 namespace HC.C08
@@ -63,5 +70,48 @@ def Full : Prop :=
     FirstMissing (run us ({}, Header.new [] none)).1 (run us ({}, Header.new [] none)).2.contiguous
 
 theorem full : Full := fun us hpos => contig_reachable us {} _ hpos (start_ok _ rfl)
+
+/-! ### the whole crate (writer): histories, reopens, crash recovery -/
+
+section Model
+open HC.LogSpec HC.LiveRefine HC.TreeStore HC.Persist HC.C01
+
+/-- what the representation invariant says about `has` and the hint -/
+theorem rep_exact (C : Crypto) (c : Core) (d : Disk) (a : Abs) (h : Rep C c d a) :
+    (∀ i, c.has i = a.held i) ∧ (∀ i, i < c.info.contiguous → a.held i = true) ∧ a.held c.info.contiguous = false
+      ∧ c.info.contiguous ≤ a.blocks.size := by
+  refine ⟨h.bits, fun i hi => ?_, ?_, contig_le C c d a h⟩
+  · rw [← h.bits]; exact h.contig.1 i hi
+  · rw [← h.bits]; exact h.contig.2
+
+/-- along every history of a freshly created writer core, with any number of reopen steps -/
+theorem writer_exact (C : Crypto) (hC : HashWF C) (hS : SignWF C) (hTw : TreeWF C) (pk sk : Bytes)
+    (hpk : pk.length = 32) (hsk : sk.length = 32) (steps : List HStep) (hok : AllOK {} steps) :
+    ∃ c j, Core.openCore C (some (pk, some sk)) {} = .ok (c, j) ∧
+      (∀ i, (runC' C (c, ({} : Disk).applyAll j) steps).1.1.has i = (runA' {} steps).1.held i)
+      ∧ (∀ i, i < (runC' C (c, ({} : Disk).applyAll j) steps).1.1.info.contiguous → (runA' {} steps).1.held i = true)
+      ∧ (runA' {} steps).1.held (runC' C (c, ({} : Disk).applyAll j) steps).1.1.info.contiguous = false := by
+  obtain ⟨c, j, h1, h2, h3⟩ := init_both C pk sk hpk hsk
+  obtain ⟨hrep, _⟩ := C02.history_invariants_reopen C hC hS hTw steps c _ {} _ {} [] h2 h3 hok
+  obtain ⟨e1, e2, e3, _⟩ := rep_exact C _ _ _ hrep
+  exact ⟨c, j, h1, e1, e2, e3⟩
+
+/-- after recovery from a crash at any storage operation of any further call -/
+theorem recovered_exact (C : Crypto) (hC : HashWF C) (hS : SignWF C) (hTw : TreeWF C) (pk sk : Bytes)
+    (hpk : pk.length = 32) (hsk : sk.length = 32) (steps : List HStep) (hok : AllOK {} steps) (op : Op)
+    (hv : Valid (runA' {} steps).1 op) (hl : Limits (runA' {} steps).1 op) (k : Nat) :
+    ∃ c j, Core.openCore C (some (pk, some sk)) {} = .ok (c, j) ∧
+      ∃ c' jo, Core.openCore C none (crashDisk C (runC' C (c, ({} : Disk).applyAll j) steps).1 op k) = .ok (c', jo)
+        ∧ ∃ a, (a = (runA' {} steps).1 ∨ a = ((runA' {} steps).1.step op).1)
+            ∧ (∀ i, c'.has i = a.held i) ∧ (∀ i, i < c'.info.contiguous → a.held i = true) ∧ a.held c'.info.contiguous = false := by
+  obtain ⟨c, j, h1, c', jo, h2, h3⟩ := C02.crash_atomic C hC hS hTw pk sk hpk hsk steps hok op hv hl k
+  refine ⟨c, j, h1, c', jo, h2, ?_⟩
+  rcases h3 with h3 | h3
+  · obtain ⟨e1, e2, e3, _⟩ := rep_exact C _ _ _ h3
+    exact ⟨_, Or.inl rfl, e1, e2, e3⟩
+  · obtain ⟨e1, e2, e3, _⟩ := rep_exact C _ _ _ h3
+    exact ⟨_, Or.inr rfl, e1, e2, e3⟩
+
+end Model
 
 end HC.C08
